@@ -60,7 +60,7 @@ class C18(Prop):
                             found.add((fn.name, ast.unparse(side)))
         expected = set(SITES) | {("transpile_lambda", "str(lam.arity)")}
         for site in sorted(found - expected):
-            g.append(Ground(f"C18/unclaimed-interpolation-site[{site[0]}: {site[1][:60]}]", False, "a value is interpolated into the generated Python at a site no contract clause classifies", witness=dict(function=site[0], expression=site[1])))
+            g.append(Ground(f"C18/unclaimed-interpolation-site[{site[0]}: {site[1][:60]}]", False, "a value is interpolated into the generated Python at a site no contract clause classifies", witness=dict(function=site[0], expression=site[1]), native=False))
         g.append(Ground("C18/interpolation-sites-enumerated", len(found) >= 10, f"{len(found)} sites"))
         # lambda arity: an int parsed by parse() or the literal 'default'
         pmod, _ = W.module_ast("vyxal/parse.py")
@@ -76,7 +76,7 @@ class C18(Prop):
                     pat = x.args[0].value
                     allowed_extra = ""
                     ok, detail = char_class_complement_ok(pat)
-                    g.append(Ground(f"C18/sanitiser-class[{rel}:{pat}]", ok, detail, witness=dict(file=rel, pattern=pat, line=x.lineno)))
+                    g.append(Ground(f"C18/sanitiser-class[{rel}:{pat}]", ok, detail, witness=dict(file=rel, pattern=pat, line=x.lineno), native=False))
         g.append(Ground("C18/sanitisers-found", n_subs >= 5, f"{n_subs} re.sub filters"))
         # `var` in transpile_structure: every assignment from program text is followed by the filter
         ts = [n for n in mod.body if isinstance(n, ast.FunctionDef) and n.name == "transpile_structure"][0]
